@@ -737,6 +737,7 @@ class FnLower:
         self.nv = 0; self.nt = 0; self.nloop = 0
         self.aux = []            # rendered auxiliary (loop) definitions
         self.loop_brk = []       # stack of K for `break`
+        self.loop_stack = []     # enclosing `for` loops whose body is being lowered: what a loop nested inside must pass on
         self.monadic_used = False
         self.namemap = []
 
@@ -901,6 +902,10 @@ class FnLower:
         return acc
 
     ABS_TY = {"Nat": "usize", "Int": "i64", "Modulus": "mod", "MulOperand": ("struct", "MultiplyU64ModOperand"), "List Nat": "list"}
+    # abstracted getters that return an object: Lean type -> (variable kind, value type).  Slices of structs (`&Vec<Modulus>`,
+    # `&Vec<MultiplyU64ModOperand>`) are read-only lists: only `.len()` and (checked) indexing are accepted on them
+    ABS_OBJ = {"List Nat": ("list", "list"), "Modulus": ("mod", "mod"), "List Modulus": ("modlist", "modlist"),
+               "List MulOperand": ("moplist", "moplist")}
     ABS_IDX = {"List Modulus": ("idxMod", "mod"), "List MulOperand": ("idxOp", ("struct", "MultiplyU64ModOperand")), "List Nat": ("idx", "u64")}
 
     def abs_indexed(self, e, env, mark=True):
@@ -953,6 +958,7 @@ class FnLower:
             if ty == "Bool": return ("v", Val(f"({name} = true)", "bool", [name]))
             if ty in self.ABS_TY: return ("v", Val(name, self.ABS_TY[ty], [name]))
             if ty in self.tr.enums_lean: return ("v", Val(name, ("enum", self.tr.enums_lean[ty]), [name]))
+            if ty in self.ABS_OBJ: return ("v", Val(name, self.ABS_OBJ[ty][1], [name]))
             self.fail(f"abstraction `{c}` of type {ty}")
         ai = self.abs_indexed(e, env)
         if ai is not None:
@@ -989,6 +995,7 @@ class FnLower:
             if v.kind == "struct": return ("v", Val(v.lean, ("struct", v.ty), [v.lean]))
             if v.kind == "val": return ("v", Val(v.lean, v.ty, [v.lean]))
             if v.kind == "list": return ("v", Val(v.lean, "list", [v.lean]))
+            if v.kind in ("modlist", "moplist"): return ("v", Val(v.lean, v.kind, [v.lean]))
             self.fail(f"use of `{e[1][0]}` ({v.kind}) as a value")
         if k == "deref":
             b = strip_paren(e[1])
@@ -1019,6 +1026,11 @@ class FnLower:
                     i = self.word(self.ex(e[2], env, ops), "index")
                     self.monadic_used = True
                     return ("m", f"idx {v.lean} {i.atom}", "u64")
+                if v.kind in ("modlist", "moplist"):
+                    # element of a read-only slice of structs (`&coeff_modulus[j]`): bounds-checked, the element is a value
+                    i = self.word(self.ex(e[2], env, ops), "index")
+                    self.monadic_used = True
+                    return ("m", f"idxT {v.lean} {i.atom}", "mod" if v.kind == "modlist" else ("struct", "MultiplyU64ModOperand"))
             self.fail("index expression")
         if k == "field":
             b = strip_paren(e[1])
@@ -1166,7 +1178,7 @@ class FnLower:
             a = self.ex(recv, env, ops)
             if a.ty != "i64": self.fail("unsigned_abs on " + str(a.ty))
             return ("v", Val(f"(Int.natAbs {a.atom})", "u64", a.deps))
-        if recv[0] == "path" and len(recv[1]) == 1 and recv[1][0] in env and env[recv[1][0]].kind == "list":
+        if recv[0] == "path" and len(recv[1]) == 1 and recv[1][0] in env and env[recv[1][0]].kind in ("list", "modlist", "moplist"):
             if m == "len" and not args: return ("v", Val(f"{env[recv[1][0]].lean}.length", "usize", [env[recv[1][0]].lean]))
             self.fail(f"slice method {m}()")
         if m in ("wrapping_add", "wrapping_sub", "wrapping_mul") and len(args) == 1:
@@ -1730,6 +1742,14 @@ class FnLower2(FnLower):
         ab = self.abstracted(i0, env)
         if ab is not None and ab[1] is None:
             env[pat] = Var("handle", ab[0], rust=pat); return          # a local standing for an opaque accessor chain
+        if ab is not None and self.opts.get("alias_abstract") and ab[1][1] == "Nat" and not mut and pat not in self.strictly_assigned and ty is None:
+            # (table option) an immutable local naming an abstracted word: an alias of the input, no `let` is emitted
+            self.namemap.append(f"{ab[1][0]}={pat}")
+            env[pat] = Var("w", ab[1][0], "usize", rust=pat); return
+        if ab is not None and ab[1][1] in self.ABS_OBJ:
+            # a local naming an abstracted object (a slice / a modulus the context hands out by reference): an alias of the input
+            if mut or pat in self.ever_assigned: self.fail(f"`{pat}` names an abstracted object but is mutable / re-assigned", ln)
+            env[pat] = Var(self.ABS_OBJ[ab[1][1]][0], ab[1][0], rust=pat); return
         if i0[0] == "array":
             vals = []
             base = self.newvar(pat)
@@ -1886,9 +1906,8 @@ class FnLower2(FnLower):
     def for_loop(self, s, stmts, i, tail, env, ops, k, nested):
         """`for v in lo..hi` / `for v in (lo..hi).rev()`: exact trip count `hi - lo` (truncated: empty when hi <= lo), no fuel needed"""
         _, var, it, body, ln = s
-        if not k.toplevel:
-            if self.opts.get("nested_loops"): return self.for_loop_nested(s, stmts, i, tail, env, ops, k, nested)
-            self.fail("loop whose continuation is not the function's own (nested in a value-`if`/merge)", ln)
+        if not k.toplevel and self.opts.get("nested_loops"): return self.for_loop_nested(s, stmts, i, tail, env, ops, k, nested)     # phase 4c
+        if not k.toplevel and not self.loop_stack: self.fail("loop whose continuation is not the function's own (nested in a value-`if`/merge)", ln)
         it = strip_paren(it); rev = False
         if it[0] == "mcall" and it[2] == "rev" and not it[3]: rev = True; it = strip_paren(it[1])
         if it[0] != "range" or it[3]: self.fail("`for` iterator is not `lo..hi` or `(lo..hi).rev()`", ln)
@@ -1907,6 +1926,10 @@ class FnLower2(FnLower):
         need = head | after
         carried = [n for n in env if n in asg and n in need]
         captured = [n for n in env if n in need and n not in carried]
+        if self.loop_stack:
+            # nested `for` (a function of its own, see below): it captures only what its own body and bounds read
+            own = self.live_stmt(s, set(), brk)
+            captured = [n for n in captured if n in own]
         for n in carried + captured:
             if not self.all_init(env, [n]): self.fail(f"variable `{n}` is live across the loop but not initialised before it", ln)
         for n in carried:
@@ -1923,30 +1946,56 @@ class FnLower2(FnLower):
                 if x not in cap_names: cap_names.append(x); cap_binders.append(f"({x} : {tyl})")
         for (bn, bt) in (self.abs_in([body[0], body[1]], env) if self.abs else []):
             if bn not in cap_names: cap_names.append(bn); cap_binders.append(f"({bn} : {bt})")
+        if self.opts.get("alias_abstract"):
+            # captured inputs in TABLE order after the ordinary locals (independent of the order of the `let`s that name them)
+            order = {ent[0]: q for q, ent in enumerate(e for e in self.abs.values() if e is not None)}
+            pairs = list(zip(cap_names, cap_binders))
+            pairs = [p for p in pairs if p[0] not in order] + sorted([p for p in pairs if p[0] in order], key=lambda p: order[p[0]])
+            cap_names = [p[0] for p in pairs]; cap_binders = [p[1] for p in pairs]
         car_names = []; car_types = []
         for n in carried:
             v = env[n]
             for x in v.names():
                 car_names.append(x); car_types.append("Int" if v.ty == "i64" else self.LEANTY.get(v.kind, "Nat"))
+        # a `for` nested in the body of another `for` is emitted as a function of its own that RETURNS its loop-carried state
+        # (no continuation inside it): its body must not leave it (`return` / `break`)
+        nested_for = bool(self.loop_stack)
+        fuelname = "fuel"
         lname = f"{self.name}_loop{self.nloop}"
         iv = self.newvar(var)
         def callstr(fuel, ivar): return " ".join([lname] + cap_names + [fuel] + ([] if rev else [ivar]) + car_names)
-        krest = K(lambda env2, _v, ops2: self.stmts(stmts, i + 1, tail, env2, ops2, k, nested), after, toplevel=True)
-        kcont = K(lambda env2, _v, ops2: ("call", callstr("fuel", f"({iv} + 1)")), head)
+        if nested_for:
+            if has_escape([body[0], body[1]], False): self.fail("`return` / `break` inside a nested `for`", ln)
+            if not car_names: self.fail("nested `for` without loop-carried state", ln)
+            state = car_names[0] if len(car_names) == 1 else "(" + ", ".join(car_names) + ")"
+            krest = K(lambda env2, _v, ops2: ("ret", state), after)
+        else:
+            krest = K(lambda env2, _v, ops2: self.stmts(stmts, i + 1, tail, env2, ops2, k, nested), after, toplevel=True)
+        kcont = K(lambda env2, _v, ops2: ("call", callstr(fuelname, f"({iv} + 1)")), head)
         self.loop_brk.append(krest)
+        self.loop_stack.append(lname)
         envb = dict_copy(env); envb[var] = Var("w", iv, "usize", rust=var)
         bops = []
-        if rev: bops.append(("let", iv, "fuel" if lo.atom == "0" else f"{lo.atom} + fuel"))
+        if rev: bops.append(("let", iv, fuelname if lo.atom == "0" else f"{lo.atom} + {fuelname}"))
         inner = self.block_code(body, envb, kcont)
         bcode = Code(bops + inner.ops, inner.term)
+        self.loop_stack.pop()
         self.loop_brk.pop()
         xops = []; xcode = Code(xops, krest.fn(dict_copy(env), None, xops))
-        self.aux.append({"name": lname, "binders": cap_binders, "car_types": ([] if rev else ["Nat"]) + car_types,
-                         "car_names": ([] if rev else [iv]) + car_names, "body": bcode, "exhaust": xcode,
-                         "fuel": f"trip count {count}", "line": ln})
+        ent = {"name": lname, "binders": cap_binders, "car_types": ([] if rev else ["Nat"]) + car_types,
+               "car_names": ([] if rev else [iv]) + car_names, "body": bcode, "exhaust": xcode,
+               "fuel": f"trip count {count}", "line": ln}
+        if nested_for:
+            self.monadic_used = True
+            ent["rty"] = "R (" + " × ".join(car_types) + ")" if len(car_types) > 1 or " " in car_types[0] else "R " + car_types[0]
+            self.aux.append(ent)
+            ops.append(("bind", state, callstr(count, lo.atom)))
+            return self.stmts(stmts, i + 1, tail, env, ops, k, nested)
+        self.aux.append(ent)
         return ("call", callstr(count, lo.atom))
 
-    LEANTY = {"w": "Nat", "b": "Bool", "out": "Nat", "mod": "Modulus", "mulop": "MulOperand", "list": "List Nat"}
+    LEANTY = {"w": "Nat", "b": "Bool", "out": "Nat", "mod": "Modulus", "mulop": "MulOperand", "list": "List Nat",
+              "modlist": "List Modulus", "moplist": "List MulOperand"}
 
     def for_loop_nested(self, s, stmts, i, tail, env, ops, k, nested):
         """phase 4: a `for v in lo..hi` whose continuation is NOT the function's own (inside another loop's body / a branch): an auxiliary
@@ -2010,6 +2059,7 @@ class FnLower2(FnLower):
     def loop(self, s, stmts, i, tail, env, ops, k, nested):
         ln = s[-1]
         if not k.toplevel: self.fail("loop that is not at the top level of the function body", ln)
+        if self.loop_stack: self.fail("`loop`/`while` nested in the body of a `for` (only `for` in `for` is supported)", ln)
         lo = self.opts.get("loops", [])
         if self.nloop >= len(lo): self.fail("loop without a fuel entry in the translation table", ln)
         lopt = lo[self.nloop]; self.nloop += 1
@@ -2612,13 +2662,14 @@ class FnTranslate(FnLower2):
             out.append(f"/-- loop at line {a['line']} of `{fn['name']}` ({fn['file']}); fuel {a['fuel']} at the call site -/")
             out.append(f"def {a['name']} {' '.join(a['binders'])} : Nat → {' → '.join(a['car_types'])} → {a.get('rty', rty)}".replace("  ", " "))
             pats = ", ".join(a["car_names"])
+            fu = "fuel"
             if mon or "rty" in a:
                 out.append(f"  | 0, {pats} => {self.term_m(a['exhaust'], 4, mon)}")
-                out.append(f"  | fuel+1, {pats} => do")
+                out.append(f"  | {fu}+1, {pats} => do")
                 out += self.seq_m(a["body"], 4, mon)
             else:
                 out.append(f"  | 0, {pats} =>"); out += self.seq_p(a["exhaust"], 4)
-                out.append(f"  | fuel+1, {pats} =>"); out += self.seq_p(a["body"], 4)
+                out.append(f"  | {fu}+1, {pats} =>"); out += self.seq_p(a["body"], 4)
             out.append("")
         out.append(f"/-- `{fn['name']}`  {fn['file']}:{fn['line0']}-{fn['line1']}  sha256/64(normalised source) = {fn['hash']}")
         out.append(f"    names: {' '.join(self.namemap)} -/")
@@ -2976,6 +3027,26 @@ def slice (l : List Nat) (a b : Nat) : R (List Nat) := if a ≤ b ∧ b ≤ l.le
 def splice (l : List Nat) (a : Nat) (s : List Nat) : List Nat := l.take a ++ s ++ l.drop (a + s.length)
 """
 
+# Gen/ScalingFns.lean (phase 4a): src/util/scaling_variant.rs, the BFV scaling  dest += / -= round(q*m/t)  (C01 / C02 / C07).
+# The context / plaintext objects are opaque; what the functions read from them are inputs (getters returning slices are lists).
+SV = "src/util/scaling_variant.rs"
+ABS_SCALING = [("context_data.parms()",),
+               ("context_data.parms().coeff_modulus()", "coeffModulus", "List Modulus"),
+               ("plain.coeff_count()", "plainCoeffCount", "Nat"),
+               ("context_data.parms().poly_modulus_degree()", "coeffCount", "Nat"),
+               ("context_data.parms().plain_modulus()", "plainModulus", "Modulus"),
+               ("context_data.coeff_div_plain_modulus()", "coeffDivPlain", "List MulOperand"),
+               ("context_data.plain_upper_half_threshold()", "upperHalf", "Nat"),
+               ("context_data.coeff_modulus_mod_plain_modulus()", "qModT", "Nat"),
+               ("plain.data()", "plainData", "List Nat")]
+SCALING_PRELUDE = """/-- bounds-checked read of a read-only slice of structs (`&coeff_modulus[j]`, `&coeff_div_plain_modulus[j]`) -/
+def idxT {α : Type} (l : List α) (i : Nat) : R α := match l[i]? with | some x => .ok x | none => .error .oob
+"""
+TABLE_SCALING = [
+    {"file": SV, "fn": "multiply_add_plain", "model": "multiplyAddPlain (Model/Scheme.lean)", "opaque": ["Plaintext", "ContextData"], "abstract": ABS_SCALING, "alias_abstract": True},
+    {"file": SV, "fn": "multiply_sub_plain", "model": "multiplySubPlain (Model/Scheme.lean)", "opaque": ["Plaintext", "ContextData"], "abstract": ABS_SCALING, "alias_abstract": True},
+]
+
 FILES += [
     ("WordFns.lean", {"ns": "GenW", "imports": ["Heathcliff.Model.Word"], "table": TABLE, "prelude": PRELUDE}),
     ("NttFns.lean", {"ns": "GenN", "imports": ["Heathcliff.Gen.WordFns"], "table": TABLE_NTT, "opens": ["HC.GenW"]}),
@@ -2989,6 +3060,7 @@ FILES += [
         "InvalidPlainModulusBitCount": {"consts": {"HE_PLAIN_MOD_BIT_COUNT_MAX": UB, "HE_PLAIN_MOD_BIT_COUNT_MIN": UB}, "abstract": [("plain_modulus.value()", "t", "Nat")]},
                         }}),
     ("EvalFns.lean", {"ns": "GenE", "imports": ["Heathcliff.Gen.WordFns"], "table": TABLE_EVAL, "opens": ["HC.GenW"]}),
+    ("ScalingFns.lean", {"ns": "GenS", "imports": ["Heathcliff.Gen.WordFns"], "table": TABLE_SCALING, "opens": ["HC.GenW"], "prelude": SCALING_PRELUDE}),
     ("RnsFns.lean", {"ns": "GenR", "imports": ["Heathcliff.Gen.WordFns"], "table": TABLE_RNS, "opens": ["HC.GenW"], "prelude": PRELUDE_RNS}),
 ]
 
